@@ -366,6 +366,38 @@ func (s *Sim) opMisuse(op *Op) {
 				s.W.Unsafe().AddRel(e.H, []ecs.ID{s.ids[r]}, ecs.RelID(s.ids[r], d.H))
 			})
 		}
+	case "obs_invalid":
+		// registering a relation observer that observes a non-relation component must panic
+		// and must leave no trace: the observer is kept (unregistered) in the inventory so
+		// that any later firing is reported as spurious by the event oracle
+		if len(s.observers) >= MaxObservers+4 {
+			s.skip(op)
+			return
+		}
+		ev := []int{EvAddRel, EvRemoveRel}[abs(op.N)%2]
+		nonRel := -1
+		for k := 0; k < NumTypes; k++ {
+			t := (abs(op.E) + k) % NumTypes
+			if !U[t].IsRel {
+				nonRel = t
+				break
+			}
+		}
+		o := NewObserverer(s.eventType(ev), -1)
+		fr := []int{nonRel}
+		if op.N%3 == 0 {
+			fr = []int{RelTypes[abs(op.E)%len(RelTypes)], nonRel} // the valid one first: half-way registration
+		}
+		o.For(fr)
+		oi := len(s.observers)
+		inst := &ObsInst{Spec: ObsSpec{Ev: ev, Ad: -1, For: fr}, O: o, ForAll: fr, Epoch: s.M.Epoch, Invalid: true}
+		o.Do(func(e ecs.Entity, ptrs []unsafe.Pointer) { s.onEvent(oi, e, ptrs) })
+		s.observers = append(s.observers, inst)
+		before := s.W.Stats().Observers
+		s.expectPanic("Observer.Register", "obs_invalid", func() { o.Register(s.W) })
+		if after := s.W.Stats().Observers; after != before {
+			s.violate("C10", "pre.unchanged", "Observer.Register/obs_invalid/count", false, "a rejected observer registration changed Stats().Observers from %d to %d", before, after)
+		}
 	case "query_dead_target", "query_foreign_relation":
 		// creating a typed query with an invalid relation argument must panic and must not
 		// leave the world locked (the lock-state oracle that follows every op checks that)
